@@ -8,7 +8,7 @@ LEVEL = 'proof'
 TRUSTED = ['Model/Mapping.v: the abstract syntax identifies vocabularies and constant shortcuts (spellings); the theorems cover the three factorings (classes, subject graph maps, multi-valued maps) on the normalisation chain',
            'rdflib parsers (Turtle, N-Triples, RDF/XML) and SPARQL engine, the vocabulary rewrites of _r2rml_to_rml / _rml_legacy_to_rml: outside the Coq model, covered by this differential check only',
            'harness/mapcase.py renderers: the equivalence of the spellings they produce is by construction (one abstract mapping)']
-ASSUMES = ['YARRRML is not rendered by the harness (not covered)']
+ASSUMES = ['YARRRML: rendered for the fragment its translator supports (CSV sources; constants, references and templates; classes; language / datatype / term type; one join condition; graph maps); functions and RML-star in YARRRML are not rendered']
 EX = mapcase.EX
 
 
@@ -20,6 +20,10 @@ def spellings(rng, case, k):
         st = mapcase.Style(vocab=vocab, shortcut=rng.random() < 0.5, cls=rng.choice(['class', 'pom']), sgraph=rng.choice(['subject', 'pom']),
                            split_poms=rng.random() < 0.4, rng=random.Random(rng.random()))
         st.serialisation = rng.choice(['turtle', 'turtle', 'nt', 'xml', 'ext-rml', 'prefixed'])
+        out.append(st)
+    if mapcase.yarrrml_ok(case):
+        st = mapcase.Style(vocab='yarrrml', rng=random.Random(rng.random()))
+        st.serialisation = 'yaml'
         out.append(st)
     return out
 
@@ -34,6 +38,11 @@ def write_spelling(case, d, st, rng):
     c = dict(case)
     if st.vocab == 'r2rml':
         c = dict(case, file_path_option=case['sources'][0]['key'])
+    if st.vocab == 'yarrrml':
+        cfg = mapcase.materialise_files(c, d, mapcase.Style())
+        os.remove(os.path.join(d, 'm.ttl'))
+        open(os.path.join(d, 'm.yml'), 'w', encoding='utf-8').write(mapcase.render_yarrrml(c))
+        return cfg.replace('mappings=m.ttl', 'mappings=m.yml')
     cfg = mapcase.materialise_files(c, d, st)
     src = os.path.join(d, 'm.ttl')
     if st.serialisation in ('nt', 'xml', 'ext-rml', 'prefixed'):
